@@ -74,6 +74,8 @@ pub fn profile_for(prop: &str, variant: u64, thorough: bool) -> Profile {
             p.max_cb_ops = 4;
             p.p_dead_sel = 20;
             p.p_child_ret = 50;
+            p.rets = [3, 3, 3, if variant % 3 == 2 { 2 } else { 0 }];
+            p.timer_dls = vec![Dl::Past, Dl::Now, Dl::Ms(1), Dl::Ms(3), Dl::Ms(8), Dl::Far, Dl::Unrep];
             if variant % 4 == 0 {
                 p.outside = [10, 4, 2, 2, 2, 40, 30, 0, 0, 0, 1, 1, 0];
                 p.p_lifecycle = if variant == 0 { 30 } else { 0 };
@@ -136,8 +138,10 @@ pub fn profile_for(prop: &str, variant: u64, thorough: bool) -> Profile {
             p.p_lifecycle = 15;
         }
         "C09" => {
-            p.outside = [10, 3, 4, 4, 4, 26, 28, 1, 0, 0, 0, 1, 0];
-            p.incb = [4, 5, 8, 3, 8, 6, 0, 0, 0, 0, 0, 0, 0];
+            p.kinds = [4, 3, 1, 4, 6, 2, 1, 5, 0];
+            p.p_lifecycle = 25;
+            p.outside = [10, 3, 4, 4, 4, 26, 28, 1, 0, 0, 0, 1, 4];
+            p.incb = [5, 6, 8, 3, 8, 6, 0, 0, 0, 0, 0, 0, 1];
             p.p_cb_ops = 50;
             p.p_cb_ret = 45;
             p.rets = [4, 4, 3, if variant % 2 == 0 { 4 } else { 0 }];
